@@ -230,27 +230,7 @@ Definition allocates (m : message) (raw_seq_num : bool) : bool :=
        | _ => true
        end.
 
-(* ------------------------------------------------------------------ chunkings (C03) *)
-
-(* offset pos of the stream [concat frames] is a frame boundary or at least 6 bytes into a frame *)
-Fixpoint cut_ok (frames : list str) (pos : nat) : bool :=
-  match frames with
-  | [] => Nat.eqb pos 0
-  | f :: fs =>
-      if Nat.eqb pos 0 then true
-      else if Nat.ltb pos (length f) then Nat.leb 6 pos
-      else cut_ok fs (pos - length f)
-  end.
-
-Fixpoint cut_positions (acc : nat) (chunks : list str) : list nat :=
-  match chunks with
-  | [] => []
-  | c :: cs => (acc + length c)%nat :: cut_positions (acc + length c) cs
-  end.
-
-(* negation of the D6 class "a read ends 1-5 bytes into a frame" *)
-Definition no_cut_inside_marker (frames chunks : list str) : bool :=
-  forallb (cut_ok frames) (cut_positions 0 chunks).
+(* ------------------------------------------------------------------ streams (C03) *)
 
 (* a frame produced by the encoder under the hypotheses of the round-trip theorem, paired with the
    message the decoder returns for it *)
@@ -264,28 +244,15 @@ Definition encoder_frame (G : group_table) (bs : str) (fm : str * message) : Pro
 (* (frame, message) as the reader hands it over: (message, raw frame) *)
 Definition delivered (fm : str * message) : message * str := (snd fm, fst fm).
 
-(* ------------------------------------------------------------------ marker-free junk (C03, last clause) *)
+(* a stream: each frame preceded by marker-free junk (possibly empty), and junk after the last frame *)
+Definition seg := (str * (str * message))%type.
+Definition seg_bytes (s : seg) : str := fst s ++ fst (snd s).
+Definition stream_of (segs : list seg) (tail : str) : str := concat (map seg_bytes segs) ++ tail.
 
-(* what the buffer may hold after a read: nothing, or at least 6 bytes of an incomplete encoder frame *)
-Definition enc_wait_ok (G : group_table) (bs : str) (P : str) : Prop :=
-  P = [] \/ exists fm Q, encoder_frame G bs fm /\ fst fm = P ++ Q /\ Q <> [] /\ (6 <= length P)%nat.
+Definition no_mark (s : str) : Prop := find_sub MARK s = None.
 
-(* what may follow junk J in one buffer: at least one whole frame and then an allowed remainder; or no
-   whole frame and a remainder that, together with the junk, is shorter than the frame it begins *)
-Definition enc_junk_tail_ok (G : group_table) (bs : str) (J : str) (fms : list (str * message)) (P : str) : Prop :=
-  (fms <> [] /\ enc_wait_ok G bs P)
-  \/ (fms = [] /\ (P = [] \/ exists fm Q, encoder_frame G bs fm /\ fst fm = P ++ Q /\ Q <> []
-                                     /\ (6 <= length P)%nat /\ (length J + length P < length (fst fm))%nat)).
+Definition enc_seg (G : group_table) (bs : str) (s : seg) : Prop :=
+  no_mark (fst s) /\ encoder_frame G bs (snd s).
 
-(* a block of the stream: whole frames, a chunking of exactly these frames, and junk-only reads after it *)
-Definition block := (list (str * message) * list str * list str)%type.
-Definition block_frames (b : block) : list (str * message) := fst (fst b).
-Definition block_chunks (b : block) : list str := snd (fst b).
-Definition block_junk (b : block) : list str := snd b.
-Definition block_reads (b : block) : list str := block_chunks b ++ block_junk b.
-
-Definition enc_block_ok (G : group_table) (bs : str) (b : block) : Prop :=
-  Forall (encoder_frame G bs) (block_frames b)
-  /\ concat (block_chunks b) = concat (map fst (block_frames b))
-  /\ no_cut_inside_marker (map fst (block_frames b)) (block_chunks b) = true
-  /\ Forall (fun J => find_sub MARK J = None) (block_junk b).
+(* a proper prefix of the frame-start marker (0 .. 5 bytes) *)
+Definition marker_prefix (s : str) : Prop := exists k, (k <= 5)%nat /\ s = firstn k MARK.
